@@ -4,10 +4,21 @@ use crate::pkggen::*;
 use std::io::Write;
 
 fn observe(bytes: &[u8]) -> String {
-    let p = match rpm::Package::parse(&mut &bytes[..]) {
+    observe_variant("parsed", bytes)
+}
+
+/// offsets of a value that was changed in memory after parsing (cleared / re-created signature header)
+fn observe_variant(variant: &str, bytes: &[u8]) -> String {
+    let mut p = match rpm::Package::parse(&mut &bytes[..]) {
         Ok(p) => p,
         Err(_) => return "err".into(),
     };
+    match variant {
+        "clear" => p.metadata.signature.clear(),
+        "newempty" => p.metadata.signature = rpm::Header::<rpm::IndexSignatureTag>::new_empty(),
+        "clearsig" => { if p.clear_signatures().is_err() { return "err".into(); } }
+        _ => {}
+    }
     let o = p.metadata.get_package_segment_offsets();
     let mut w = Vec::new();
     if p.write(&mut w).is_err() {
@@ -64,6 +75,7 @@ fn offbig(dl: u64) -> String {
 pub fn eval(op: &str, a: &[&str]) -> Option<String> {
     match op {
         "offsets" => Some(observe(&arg_bytes(a[0]))),
+        "offv" => Some(observe_variant(a[0], &arg_bytes(a[1]))),
         "offbig" => Some(offbig(a[0].parse().ok()?)),
         _ => None,
     }
@@ -100,8 +112,13 @@ pub fn gen(ctx: &mut Ctx) {
         }
     }
     let n = ctx.q(10_000u64, 200_000) / sn;
-    for _ in 0..n {
+    for i in 0..n {
         let bytes = gen_package_wf(&mut ctx.rng);
         ctx.req(&format!("offsets {}", hx(&bytes)));
+        // values modified in memory: cleared / fresh / recomputed signature header
+        if i % 10 == 0 {
+            let v = *ctx.rng.pick(&["clear", "newempty", "clearsig"]);
+            ctx.req(&format!("offv {} {}", v, hx(&bytes)));
+        }
     }
 }
